@@ -1,1 +1,4 @@
-//! verification harness module included into `ntpd/src/daemon/config/server.rs` (guarded hook).
+//! verification harness dispatcher for hook `verif_daemon_config_server` of crate `ntpd` (guarded hook).
+//! Add one line per property cluster:   #[path = "daemon_config_server_<cluster>.rs"] mod <cluster>;
+//! Each sub-module has its own `#[test] fn entry()` selected by VERIF_STREAM and reaches the private
+//! items of the module the hook sits in through `super::super::*`.
